@@ -288,6 +288,12 @@ def workload(ctx, repo):
                                     {"years": 8}, {"years": 100},
                                     {"years": -200}, {"years": 400},
                                     {"months": 1}, {"months": -1},
+                                    {"months": 1, "days": -30},
+                                    {"years": 1, "days": -365},
+                                    {"months": 1, "hours": -720},
+                                    {"years": 1, "months": -12, "days": -5},
+                                    {"months": -1, "days": 30},
+                                    {"months": 12}, {"months": -24},
                                     {"months": 13, "years": -2},
                                     {"months": -1, "years": 1, "days": 1}):
                             kw = gen.date_kwargs(mode, rep, rd)
